@@ -318,6 +318,60 @@ CLAIMED = {
              "within the tick budget by string doubling; deep value nesting taking >20 s within budget; native stack overflow "
              "on 3000-level source nesting).",
         design="§7 C25"),
+
+    "C19": dict(
+        category="translation_validation",
+        technique="per-input validation by a Lean decision procedure (alphaCheck, proved sound for the alpha-renaming relation) on the real parser's trees + Lean proof that alpha-renaming preserves behaviour + run-before/after oracle",
+        text="Every rename performed by the real tool on generated programs (~2.7k renames per quick run: every binder kind, "
+             "shadowing, sibling scopes, closures, a same-named unrelated occurrence in 60% of cases) is judged by the Lean "
+             "checker alphaCheck on the (before, after) trees from the real parser. Proved once for all programs: alphaCheck is "
+             "sound for the relation IsAlphaRename; IsAlphaRename to a fresh name preserves the result, the store and the printed "
+             "output of the reference semantics RefSem for every fuel (closure-free fragment: alpha_sound_partial); the exact model "
+             "of apply_renames replaces exactly the listed tokens (apply_renames_spec). Oracle: `garden run` before/after, an "
+             "independent Python resolver, LSP rename edits vs the CLI.",
+        note=TB + "The closure case of alpha_sound is not proved (needs a value/store relation); programs with closures are "
+             "covered by the relation and the oracle only. RefSem is compared with the real evaluator on every generated program.",
+        design="§7 C19"),
+    "C22": dict(
+        category="translation_validation",
+        technique="exact Lean model of apply_fixes proved equal to simultaneous substitution for disjoint fixes + per-input validation of the real fix lists + parse/run/fixpoint oracle",
+        text="Proved: for pairwise-disjoint in-bounds fixes in any order apply_fixes is the simultaneous substitution and does not "
+             "panic (apply_fixes_disjoint); local schema soundness of four fix shapes (unused literal / string statement, "
+             "unnecessary let, repeated bool). Per input (~300 lint-triggering programs per quick run): the real fix lists (hook "
+             "op) are checked for disjointness and range coverage, the model's output must equal `check --fix --stdout`, the fixed "
+             "program must parse, print and end like the original, and --fix must reach a fixed point in <= 3 rounds.",
+        note=TB + "Schema lemmas are local (not lifted through arbitrary contexts). Seven narrow known findings (overlapping "
+             "duplicate fixes incl. a --fix panic, effectful unused value removed, a repeated-bool fix that does not parse, an "
+             "unused let that is used by a return, a fix pair that flips forever).",
+        design="§7 C22"),
+    "C26": dict(
+        category="proof",
+        technique="Lean 4 proof over a model of the test-runner loop on top of the machine model M4 + hook/CLI correspondence with per-tick traces + CLI permutation and filter oracle",
+        text="Proved for any number and size of tests and any fuel: the exit code is 1 iff some selected test did not pass "
+             "(exit_honest, exit_honest_selected), summary counts equal the verdict counts (counts_match), the verdict list is "
+             "the list of verdicts each test gets alone, in run order, so verdicts are independent of the other tests, of the "
+             "order and of -n filters (runner_is_map, verdict_independent, verdict_order_irrelevant, verdict_filter_irrelevant) "
+             "for environments without a tick limit (what `garden test` builds). `garden test` is run on generated files in "
+             "every permutation (capped) and with -n filters; verdicts, counts and exit status are compared with the model and "
+             "judged directly.",
+        note=TB + "Independence needs: no tick limit, and every test alone ends with a verdict. With a limit it is false "
+             "(machine-checked counterexample; known finding C26/sandboxed-shared-tick-budget: sandboxed-test shares one tick "
+             "budget across the file). assert is modelled by an encoding on top of M4.",
+        design="§7 C26"),
+    "C27": dict(
+        category="proof",
+        technique="Lean 4 proof (prefix simulation) over the machine model's stop_at_expr_id semantics + eval-up-to correspondence at every expression position + instrumented-run oracle",
+        text="Proved for any program: the run with a stop node is step-for-step a prefix of the free run up to the first "
+             "completion of that node; the reported value is the top of the value stack (or the frame result for a call) at that "
+             "first completion; an error is reported only if the free run fails with the same error before the node completes "
+             "(stop_is_prefix, stop_at_first_completion, error_only_before_completion). `garden reftest-eval-up-to` at every "
+             "expression position of generated programs (1000 positions per quick run) is compared with the model "
+             "tick-for-tick and with the same program instrumented and run normally.",
+        note=TB + "Partial: that marking the observed node `used` does not change the run otherwise (mark_used_preserves) is not "
+             "proved; it rests on the instrumented-run oracle and the flag/trace correspondence. Positions inside function bodies "
+             "(previous call arguments) are not modelled. Known finding: an expression not reached in the re-run gets the item's "
+             "final value.",
+        design="§7 C27"),
 }
 
 NOT_YET = {}
